@@ -172,7 +172,7 @@ Exec(s, key, g) ==
                           IN  SetAccAndFlag(t.s, n, <<a[1], a[2], t.v % EB>>)
     [] key = "pop/ArArpSttMod" -> LET t == Pop16(s) IN RegFromBus(t.s, RN("ArArpSttMod", g[1]), t.v)
     [] key = "pop/Bx" -> LET t == Pop16(s) IN RegFromBus(t.s, BXn(g, 1), t.v)
-    [] key = "pop_prpage/" -> LET t == Pop16(s) IN [t.s EXCEPT !.r.prpage = t.v]
+    [] key = "pop_prpage/" -> LET t == Pop16(s) IN [t.s EXCEPT !.r.prpage = t.v % 16]
     [] key = "pop/Px" -> LET t1 == Pop16(s)  t2 == Pop16(t1.s) IN PFromBus(t2.s, g[1], t2.v, t1.v)
     [] key = "pop_r6/" -> LET t == Pop16(s) IN [t.s EXCEPT !.r.r[7] = t.v]
     [] key = "pop_repc/" -> LET t == Pop16(s) IN [t.s EXCEPT !.r.repc = t.v]
@@ -201,7 +201,7 @@ Exec(s, key, g) ==
     [] key = "tstb/Register,Imm4" -> LET t == RegToBus(s, RN("Register", g[1]), FALSE) IN [t.s EXCEPT !.r.fz = Bit(t.v, g[2])]
     [] key = "tstb_r6/Imm4" -> [s EXCEPT !.r.fz = Bit(s.r.r[7], g[1])]
     [] key = "tstb/SttMod,Imm16" -> LET t == RegToBus(s, RN("SttMod", g[1]), FALSE)
-                                    IN  [t.s EXCEPT !.r.fz = IF g[2] < 16 THEN Bit(t.v, g[2]) ELSE 0]   \* only decided for imm < 32
+                                    IN  [t.s EXCEPT !.r.fz = IF g[2] < 16 THEN Bit(t.v, g[2]) ELSE 0]
     [] key = "dint/" -> [s EXCEPT !.r.ie = 0]
     [] key = "eint/" -> [s EXCEPT !.r.ie = 1]
     [] key = "mul/Mul3,Rn,StepZIDS,Imm16,Ax" ->
